@@ -121,6 +121,7 @@ type NegScript struct {
 	TLSReply     int      `json:"tls_reply"`
 	Cert         int      `json:"cert"`
 	TLS12        bool     `json:"tls_1_2_only,omitempty"` // the server does not speak TLS 1.3
+	TLS13Only    bool     `json:"tls_1_3_only,omitempty"` // the server refuses anything below TLS 1.3 (alert protocol_version)
 	AuthReply    int      `json:"auth_reply"`
 	AuthCond     string   `json:"auth_cond,omitempty"`
 	Session      int      `json:"session"`
@@ -695,6 +696,9 @@ func (sc *SrvConn) startTLS() {
 	cfg := sc.S.Certs.ServerConfig(sc.Script.Cert, sc.e.Tape.Seed)
 	if sc.Script.TLS12 {
 		cfg.MaxVersion = tls.VersionTLS12
+	}
+	if sc.Script.TLS13Only {
+		cfg.MinVersion = tls.VersionTLS13
 	}
 	if sc.Script.Cert == CertAbort {
 		sc.e.Fault("tls.abort")
